@@ -82,6 +82,15 @@ def inputs(ctx):
             out.append(("fragment:" + tag, pdb_text(frag, m), ".pdb"))
         for ch in (",", '"'):
             out.append(("fragment:chain-%s" % ("comma" if ch == "," else "quote"), pdb_text(frag, None, ch), ".pdb"))
+        rs0 = list(frag.residues)
+        if len(rs0) >= 9:
+            third = len(rs0) // 3
+            # a chain identifier revisited after another chain (A..., B..., A...)
+            mixed = [g3.renumber(r, "A" if (k < third or k >= 2 * third) else "B", r.number, r.icode) for k, r in enumerate(rs0)]
+            out.append(("fragment:chain-revisited", pdb_text(g3.mk_structure(mixed)), ".pdb"))
+            # two models, the first one numbered 2 and the second one numbered 1 with fewer residues
+            two = pdb_text(frag, 2).replace("END\n", "") + pdb_text(g3.mk_structure(rs0[: len(rs0) - 4]), 1)
+            out.append(("fragment:models-2-then-1", two, ".pdb"))
         # a chain break in front of the helix: residues 3-4 of the fragment left out
         rs = list(frag.residues)
         if len(rs) > 8:
@@ -229,7 +238,7 @@ def judge(res, prop, runs):
             # only what the property speaks about is judged: a tool that ends abnormally is reported when an output this
             # property reads (JSON / CSV; for C07 also BPSEQ and stems CSV) was asked for and is not there
             res.count("cli:main-%s" % o["main"].split(":")[0])
-            reads = {"C07": ("-b", "--stems-csv"), "C06": ("-b",), "C16": (), "C18": ("--inter-stem-csv",), "C02": ("-j",)}.get(prop, ("-c", "-j"))
+            reads = {"C07": ("-b", "--stems-csv"), "C06": ("-b",), "C01": ("-b",), "C08": ("-b",), "C16": (), "C18": ("--inter-stem-csv",), "C02": ("-j",)}.get(prop, ("-c", "-j"))
             need = [x for x in reads if x in flags and "file:" + x not in o]
             if need and not (prop == "C07" and need == ["--stems-csv"] and not lib["nstems"]) and not (prop == "C18" and not lib["inter"]):
                 res.fail("spec", "%s:cli:main-%s" % (prop, o["main"].split(":")[0] + ":" + o["main"].split(":")[-1]), inp,
@@ -259,6 +268,10 @@ def judge(res, prop, runs):
                 if got != lib["stackings"]:
                     res.fail("spec", "C04:cli:csv-stackings-differ-from-find_stackings", inp,
                              "CSV lists %d stackings, find_stackings %d" % (len(got), len(lib["stackings"])))
+        if prop == "C01" and "-b" in flags and "file:-b" in o and "-e" not in flags and "-a" not in flags:
+            why = notation_matches_bpseq(o["stdout"], o["file:-b"])
+            if why:
+                res.fail("spec", "C01:cli:printed-notation-does-not-encode-the-bpseq-file", inp, why)
         if prop == "C03" and js is not None:
             got = sorted((_fn(p["nt1"]), _fn(p["nt2"]), p.get("lw")) for p in js.get("baseInteractions", {}).get("basePairs", []))
             if got != lib["pairs"]:
@@ -299,7 +312,7 @@ def judge(res, prop, runs):
                 k = next((i for i, (a, b) in enumerate(zip(rows, lib["csv"])) if a != b), min(len(rows), len(lib["csv"])))
                 res.fail("spec", "C11:cli:csv-differs-from-lists", inp, "row %d: file %r, lists %r" % (
                     k, rows[k] if k < len(rows) else None, lib["csv"][k] if k < len(lib["csv"]) else None))
-        if prop in ("C07", "C06"):
+        if prop in ("C07", "C06", "C01", "C08"):
             if "-b" in flags and o.get("file:-b") is not None and o["file:-b"].strip() != str(lib["bpseq"]).strip():
                 res.fail("spec", prop + ":cli:bpseq-file-differs", inp, "BPSEQ file is not the library's BPSEQ")
             want = lib["ext"] if "-e" in flags else None
@@ -325,6 +338,47 @@ def judge(res, prop, runs):
                         else:
                             continue
                         break
+
+
+def notation_matches_bpseq(stdout, bpseq_text):
+    """None when the multi-strand notation printed by the tool (>strand / sequence / structure triples) spells the sequence
+    of the BPSEQ file and decodes - one stack per bracket type - to exactly its pairs; otherwise a description"""
+    lines = [l for l in stdout.splitlines() if l.strip()]
+    seq, struct = "", ""
+    k = 0
+    while k + 2 < len(lines) + 0 and lines[k].startswith(">strand"):
+        seq += lines[k + 1]
+        struct += lines[k + 2]
+        k += 3
+    entries = [l.split() for l in bpseq_text.splitlines() if l.strip()]
+    try:
+        bseq = "".join(e[1] for e in entries)
+        partner = {int(e[0]): int(e[2]) for e in entries}
+    except (IndexError, ValueError):
+        return "BPSEQ file does not parse: %r" % bpseq_text[:100]
+    if [int(e[0]) for e in entries] != list(range(1, len(entries) + 1)):
+        return "BPSEQ file is not numbered 1..N"
+    if any(p and partner.get(p) != i for i, p in partner.items()):
+        return "BPSEQ file is not symmetric"
+    if seq != bseq or len(struct) != len(bseq):
+        return "printed sequence %r (structure length %d) vs BPSEQ sequence %r" % (seq[:60], len(struct), bseq[:60])
+    opening, closing = "([{<" + "ABCDEFGHIJKLMNOPQRSTUVWXYZ", ")]}>" + "abcdefghijklmnopqrstuvwxyz"
+    stacks, got = {}, {}
+    for i, ch in enumerate(struct, start=1):
+        if ch in opening:
+            stacks.setdefault(opening.index(ch), []).append(i)
+        elif ch in closing:
+            st = stacks.get(closing.index(ch)) or []
+            if not st:
+                return "printed notation is unbalanced at position %d" % i
+            j = st.pop()
+            got[i], got[j] = j, i
+    if any(stacks.values()):
+        return "printed notation has unclosed brackets"
+    want = {i: p for i, p in partner.items() if p}
+    if got != want:
+        return "printed notation decodes to %d paired positions, the BPSEQ file has %d" % (len(got), len(want))
+    return None
 
 
 def _fn(j):
